@@ -152,6 +152,22 @@ class Driver17(Driver):
                 for o in cb["ops"]:
                     self.exec_op(o, inside=True)
                 raise_class(cb["exc"], "callback fault (scripted)")
+            # any callable will do as a user callback (as in sched_impl.Driver.make_cb): a functools.partial and a callable object
+            # have no __name__, a bound method is not a function - the form varies with the callback
+            form = (i + len(cb["ops"]) + len(self.sc.get("ops", []))) % 4
+            if form == 1:
+                import functools
+                return functools.partial(lambda f: f(), fn)
+            if form == 2:
+                class CallableObject:
+                    def __call__(self_inner):
+                        return fn()
+                return CallableObject()
+            if form == 3:
+                class Holder:
+                    def method(self_inner):
+                        return fn()
+                return Holder().method
             return fn
         return super().make_cb(i, cb)
 
@@ -227,6 +243,96 @@ class Driver17(Driver):
         return out
 
 
+# ---- real, stateful output devices behind the scheduler ------------------------------------------------------------------
+class FakePort:
+    """what mido.open_output returns: records the bytes of every message sent"""
+    name = "verif-fake-port"
+
+    def __init__(self):
+        self.sent = []
+
+    def send(self, msg):
+        self.sent.append(list(msg.bytes()))
+
+    def close(self):
+        pass
+
+
+class DriverReal(Driver17):
+    """config "device": "file" = MidiFileOutputDevice writing a temporary file that is read back with mido at the end;
+    "port" = MidiOutputDevice on a fake mido port.  The data of the scenario goes to the device as it is: a note / velocity /
+    control value / program outside 0..127 is refused by mido.Message inside the device call (ValueError).
+    Result: "res": per tick "ok" / "stop" / "exc", "ids": scheduled tracks after every tick, "times", "escaped",
+    "file": [[delta, bytes]] of every non-meta message of the saved file / "port": per tick the byte lists sent."""
+    def __init__(self, sc):
+        import tempfile, mido
+        self.sc = sc
+        self.U = sc["U"]
+        cfg = sc["config"]
+        self.kind = cfg["device"]
+        if self.kind == "file":
+            from isobar.io.midifile import MidiFileOutputDevice
+            self.tmpdir = tempfile.mkdtemp(prefix="c17dev")
+            self.filename = os.path.join(self.tmpdir, "out.mid")
+            self.dev = MidiFileOutputDevice(self.filename)
+        else:
+            from isobar.io.midi import MidiOutputDevice
+            self.port = FakePort()
+            saved = mido.open_output
+            mido.open_output = lambda *a, **k: self.port
+            try:
+                self.dev = MidiOutputDevice("verif-fake-port")
+            finally:
+                mido.open_output = saved
+        self.dev.calls = []          # the callbacks of the scenario log themselves here
+        self.tl = iso.Timeline(cfg.get("tempo", 120), output_device=self.dev,
+                               clock_source=iso.DummyClock(ticks_per_beat=sc["tpb"]),
+                               ignore_exceptions=bool(cfg.get("ignore")))
+        self.tl.max_tracks = cfg.get("max_tracks", 0)
+        self.tl.stop_when_done = bool(cfg.get("stop_when_done"))
+        self.created = []
+        self.cb_fns = [self.make_cb(i, cb) for i, cb in enumerate(sc.get("callbacks", []))]
+
+    def run(self):
+        import mido
+        res, ids, times, escaped, port_ticks, idx = [], [], [], [], [], 0
+        for o in self.sc["ops"]:
+            reps = o[1] if o[0] == "tick" else 1
+            for _ in range(reps):
+                if o[0] == "tick":
+                    before = len(self.port.sent) if self.kind == "port" else 0
+                    try:
+                        self.tl.tick(); r = "ok"
+                    except StopIteration:
+                        r = "stop"
+                    except Exception as e:
+                        r = "exc"
+                        escaped.append([idx, type(e).__name__, [c.__name__ for c in type(e).__mro__ if c is not object]])
+                    res.append(r)
+                    ids.append(self.ids())
+                    times.append(self.tl.current_time * self.sc["tpb"])
+                    if self.kind == "port":
+                        port_ticks.append(self.port.sent[before:])
+                elif o[0] == "set_ignore":
+                    self.tl.ignore_exceptions = bool(o[1])
+                else:
+                    self.exec_op(o)
+                idx += 1
+        out = {"res": res, "ids": ids, "times": times, "escaped": escaped, "device_tpb": self.dev.ticks_per_beat}
+        if self.kind == "file":
+            self.dev.write()
+            msgs = []
+            for m in mido.MidiFile(self.filename).tracks[0]:
+                if not m.is_meta:
+                    msgs.append([m.time, list(m.bytes())])
+            out["file"] = msgs
+            os.remove(self.filename)
+            os.rmdir(self.tmpdir)
+        else:
+            out["port"] = port_ticks
+        return out
+
+
 def fault_classes():
     """what each catalogue entry raises: {name: [class name, MRO names]} - measured, not declared"""
     out = {}
@@ -260,7 +366,7 @@ def main():
         try:
             buf = io.StringIO()
             with contextlib.redirect_stdout(buf), contextlib.redirect_stderr(buf):
-                r = Driver17(sc).run()
+                r = (DriverReal(sc) if sc["config"].get("device") else Driver17(sc)).run()
             out.append(r)
         except Exception as e:
             import traceback
